@@ -101,10 +101,12 @@ Print Assumptions C01_csr_hw_wellformed.
    Cat(lane, adr) and rung 1's `creach` below the bridge.
 
    Domain (`wb_dom r`, Proofs/HierWb2.v): the root's addr_width is not negative (wishbone.Signature checks it,
-   the model does not); every add() is dense (sparse=False) between equal geometries (subordinate data width =
-   root data width, subordinate granularity = root granularity; for a bridge: the CSR data width); an explicit
-   address is a multiple of the window size 2^addr_width of the subordinate's map (note N2); the tree behind a
-   bridge is in rung 1's domain `csr_dom`.  "Every window is at least one word wide" is NOT assumed: it is
+   the model does not); every add() is either dense (sparse=False) between equal geometries (subordinate data
+   width = root data width, subordinate granularity = root granularity; for a bridge: the CSR data width), or
+   sparse (sparse=True) under a root whose granularity is its data width (gbits = 0) with a subordinate whose
+   granularity is its data width (what add() demands of a sparse subordinate); an explicit address is a
+   multiple of the window size 2^addr_width of the subordinate's map (note N2); the tree behind a bridge is in
+   rung 1's domain `csr_dom`.  This is the whole domain the correspondence engine `hier` generates.  "Every window is at least one word wide" is NOT assumed: it is
    derived from the constructors' own checks (Proofs/HierWb3.v sub_geom).  Everything else is whatever the
    constructors accept (`wbroot_map r = Ok m`, `wbroot_hw r = Ok h`, `all_resources m = Ok l`).
 
@@ -113,11 +115,12 @@ Print Assumptions C01_csr_hw_wellformed.
    domain of C07's selection theorems), C01_wb_outside_windows_inert (outside every window of the MAP => the
    HARDWARE selects nobody) and the combined trace corollary C01_wb_unselected_inert.
 
-   NOT PROVED (outside `wb_dom`; the correspondence engine `hier` still checks the model's `reach` against
-   decode_address()/find_resource() of the real root map on every generated hierarchy and address):
-     - sparse windows (the generator makes them only under a decoder with granularity = data width, where
-       gbits = 0 and the statement of C01_wb_reach_iff_decode is expected to hold verbatim; `wreach` is not
-       meant for sparse windows under gbits > 0, where one subordinate word occupies a whole root word);
+   NOT PROVED (the correspondence engine `hier` checks the model's `reach` against decode_address() /
+   find_resource() of the real root map, and the oracle the real hardware against the real map, on every
+   generated hierarchy and address):
+     - outside `wb_dom`: sparse windows under gbits > 0 (one subordinate word then occupies a whole root word
+       while the root map gives it one granule address; `wreach` is not defined for them and the generator does
+       not make them), dense windows between different granularities (ratio > 1);
      - the cycle-exact counterpart of reach (which leaf is strobed in which cycle of a Wishbone transfer through
        a bridge): C07 request relay + C10 transfer + C15 are proved per component, their composition over the
        hierarchy machine `wb_run` is proved only for the unselected case (the theorems at the end of this
@@ -335,7 +338,8 @@ Qed.
    chunk 0 of register 1 behind the bridge; the map reports register 1 at [11, 12)) *)
 Example C01_nonvacuous_wb_dom : wb_dom ex_wb.
 Proof.
-  split; [cbn; lia|]. repeat constructor; cbn; try lia; try exact I; intros z H; try discriminate.
+  split; [cbn; lia|]. repeat constructor; cbn; try (left; repeat split; reflexivity); try exact I;
+    intros z H; try discriminate.
   injection H as <-. reflexivity.
 Qed.
 
@@ -359,4 +363,29 @@ Proof.
   split; [vm_compute; split; [discriminate|reflexivity]|].
   intros wn c [H|[H|[]]]; injection H as <- <-; vm_compute; intros [H1 H2]; try (apply H1; reflexivity);
     discriminate.
+Qed.
+
+(* a sparse window: a 16-bit root with granularity 16 (gbits = 0) over an 8-bit, 4-byte SRAM added with
+   sparse=True after align_to(2): each SRAM byte occupies one root word, the map and the hardware agree *)
+Definition ex_wb_sparse : wbroot :=
+  {| wr_aw := 3; wr_dw := 16; wr_gran := 16; wr_al := 0;
+     wr_subs := [({| o_aligns := [2]; o_name := Some (NStr 32); o_addr := VInt 4 |}, true,
+                  SramLeaf 2000 4 8 8 true [17; 34; 51; 68])] |}.
+
+Example C01_nonvacuous_wb_sparse :
+  wb_dom ex_wb_sparse /\
+  exists m h, wbroot_map ex_wb_sparse = Ok m /\ wbroot_hw ex_wb_sparse = Ok h /\
+    map (decode_address m) (map Z.of_nat (seq 0 8)) =
+      [None; None; None; None; Some 2000; Some 2000; Some 2000; Some 2000] /\
+    map (wreach h) (map Z.of_nat (seq 0 8)) =
+      [None; None; None; None; Some (2000, 0); Some (2000, 1); Some (2000, 2); Some (2000, 3)].
+Proof.
+  split.
+  - split; [cbn; lia|]. constructor; [|constructor].
+    split; [right; cbn; repeat split; reflexivity|].
+    split; [cbn; intros z H; injection H as <-; reflexivity|exact I].
+  - destruct (wbroot_map ex_wb_sparse) as [m|] eqn:Em; [|vm_compute in Em; discriminate].
+    destruct (wbroot_hw ex_wb_sparse) as [h|] eqn:Eh; [|vm_compute in Eh; discriminate].
+    exists m, h. vm_compute in Em. injection Em as <-. vm_compute in Eh. injection Eh as <-.
+    split; [reflexivity|]. split; [reflexivity|]. vm_compute. split; reflexivity.
 Qed.
